@@ -129,6 +129,28 @@ impl Registry {
                 },
             }
         }
+        // a file whose `mod` declaration (in the crate's lib.rs) is compiled out in this configuration does not exist in it
+        if features.is_some() {
+            let names: Vec<String> = files.keys().cloned().collect();
+            for f in names {
+                let parts: Vec<&str> = f.split('/').collect();
+                // `<crate>/src/<m>.rs` or `<crate>/src/<m>/mod.rs`
+                let m = match parts.as_slice() {
+                    [_, "src", file] if *file != "lib.rs" => file.trim_end_matches(".rs").to_string(),
+                    [_, "src", dir, "mod.rs"] => dir.to_string(),
+                    _ => continue,
+                };
+                let lib = format!("{}/src/lib.rs", parts[0]);
+                let declared_raw = std::fs::read_to_string(root.join(&lib)).ok().and_then(|t| syn::parse_file(&t).ok()).map(|ast| {
+                    ast.items.iter().any(|it| matches!(it, syn::Item::Mod(x) if x.ident == m.as_str()))
+                });
+                let declared_now = files.get(&lib).map(|ast| ast.items.iter().any(|it| matches!(it, syn::Item::Mod(x) if x.ident == m.as_str())));
+                if declared_raw == Some(true) && declared_now == Some(false) {
+                    files.remove(&f);
+                    file_errors.insert(f.clone(), format!("module `{}` not found in this configuration of {} (its `mod` item is compiled out)", m, parts[0]));
+                }
+            }
+        }
         Registry { files, file_errors }
     }
 
